@@ -430,8 +430,9 @@ class Prop(fw.PropBase):
             'strategies_with_an_accept': len(hist['strategy_accepts']),
             'strategies_registered': len(self.describe()['strategies']),
             'harness_errors': len(errs),
-            'exhaustive': ('all pair lists of length <= 3 over 12 pair shapes x 3 configurations (%d libraries)'
-                           % sum(1 for c in cases if c['stream'] == 'exhaustive')) if self.tier == 'thorough' else False,
+            'exhaustive': False,
+            'exhaustive_scope': ('all pair lists of length <= 3 over 12 pair shapes x 3 configurations (%d libraries), besides the '
+                                 'random streams' % sum(1 for c in cases if c['stream'] == 'exhaustive')) if self.tier == 'thorough' else None,
         })
         if errs:
             raise fw.Broken('correspondence', 'harness could not run %d cases; first: %s' % (len(errs), errs[0][1]['error']))
